@@ -102,11 +102,11 @@ auto gemm_n(Context&& ctxt, typename It2DA::element alpha, It2DA a_first, Size a
 		if  (a_count==1)        {CTXT->gemm('C', 'N', a_count, (*c_first).size(), (*a_first).size(), &alpha, underlying(b_first.base()), (*b_first).stride(), a_first.base(), (*a_first).size()  , &beta, c_first.base(), c_first.stride());}
 		else                    {CTXT->gemm('C', 'N', (*c_first).size(), a_count, (*a_first).size(), &alpha, underlying(b_first.base()), (*b_first).stride(), a_first.base(), a_first.stride(), &beta, c_first.base(), c_first.stride());}
 	}else if((*a_first).stride()==1 && b_first. stride()==1 && c_first. stride()==1){
-								{CTXT->gemm('C', 'N', (*c_first).size(), a_count, (*a_first).size(), &alpha, underlying(b_first.base()), (*b_first).stride(), a_first.base(), a_first. stride(), &beta, c_first.base(), (*c_first).stride());}
+								{throw std::logic_error{"not BLAS-implemented"};}  // C (column-major) = A (row-major) * conj(B) (column-major) needs a conjugation without transposition (the xGEMM call that was here computed the transposed result)
 	}else if(a_first. stride()==1 && b_first. stride()==1 && c_first. stride()==1){
-								{CTXT->gemm('C', 'T', (*c_first).size(), a_count, (*a_first).size(), &alpha, underlying(b_first.base()), (*b_first).stride(), a_first.base(), (*a_first).stride(), &beta, c_first.base(), (*c_first).stride());}
+								{throw std::logic_error{"not BLAS-implemented"};}  // C (column-major) = A (column-major) * conj(B) (column-major): conjugation without transposition (the call that was here computed the transposed result)
 	}else if(a_first. stride()==1 && b_first. stride()==1 && (*c_first).stride()==1){
-								{CTXT->gemm('C', 'T', a_count, (*c_first).size(), (*a_first).size(), &alpha, underlying(b_first.base()), (*b_first).stride(), a_first.base(), (*a_first).stride(), &beta, c_first.base(), c_first. stride());}
+								{CTXT->gemm('C', 'T', (*c_first).size(), a_count, (*a_first).size(), &alpha, underlying(b_first.base()), (*b_first).stride(), a_first.base(), (*a_first).stride(), &beta, c_first.base(), c_first. stride());}  // C^T (n x m) = B^H A^T
 	}else{assert(0);}  // NOLINT(cppcoreguidelines-pro-bounds-array-to-pointer-decay,hicpp-no-array-decay)
 
 	return c_first + a_count;
@@ -142,7 +142,7 @@ auto gemm_n(Context&& ctxt, typename It2DA::element alpha, It2DA a_first, Size a
 
 	if(a_count == 0) { return c_first; }
 	if      (a_first. stride()==1 && b_first. stride()==1 && (*c_first).stride()==1){
-	                            {CTXT->gemm('C', 'C', a_count, (*c_first).size(), (*a_first).size(), &alpha, underlying(base(b_first)), (*b_first).stride(), underlying(base(a_first)), (*a_first).stride(), &beta, base(c_first), c_first. stride());}
+	                            {CTXT->gemm('C', 'C', (*c_first).size(), a_count, (*a_first).size(), &alpha, underlying(base(b_first)), (*b_first).stride(), underlying(base(a_first)), (*a_first).stride(), &beta, base(c_first), c_first. stride());}  // C^T (n x m) = B^H A^H
 	} else                      {throw std::logic_error{"not BLAS-implemented"};}
 	return c_first + a_count;
 }
